@@ -5,6 +5,7 @@ import (
 	"go/constant"
 	"go/token"
 	"go/types"
+	"regexp"
 	"sort"
 	"strings"
 
@@ -312,7 +313,7 @@ func RootWildcardsReachDependants(p *load.Prog, r *oblig.Report, rule string, fu
 		}
 		return false
 	}
-	found := 0
+	found, toEdges, toNodes := 0, 0, 0
 	for _, fn := range funcs {
 		walks := false
 		for _, b := range fn.Blocks {
@@ -428,6 +429,11 @@ func RootWildcardsReachDependants(p *load.Prog, r *oblig.Report, rule string, fu
 						fromRoot++
 						rootStores++
 						rootLists[s+".wildcards"] = true
+						if strings.HasSuffix(deref(fa.X.Type()).String(), "Edge") {
+							toEdges++
+						} else {
+							toNodes++
+						}
 					default:
 						bad[pathx.StripUnique(s)] = fmt.Sprintf("while the dependants of the resolved cycle root %s are patched, the wildcards of %s receive those of %s (%s) — neither the object itself nor the root: the dependant names public types the root does not contribute and misses those it does", pathx.StripUnique(rootKey), pathx.StripUnique(target), pathx.StripUnique(s), p.Pos(st.Pos()))
 					}
@@ -478,6 +484,8 @@ func RootWildcardsReachDependants(p *load.Prog, r *oblig.Report, rule string, fu
 	}
 	if found == 0 {
 		r.Unknown(rule, "root-wildcards:anchor", "-", "no function walks the dependants table of a cycle root: anchors no longer resolve")
+	} else if toEdges == 0 || toNodes == 0 {
+		r.Bad(rule, "root-wildcards:both-kinds", "-", fmt.Sprintf("when a cycle root is resolved its wildcards must reach the dependant edges AND the nodes those edges leave; found %d store(s) into edges and %d into nodes in the code reachable from Build: one of the two fix-ups is gone or no longer called", toEdges, toNodes))
 	}
 }
 
@@ -672,5 +680,720 @@ func StepAlwaysCreatesEdge(p *load.Prog, r *oblig.Report, rule string, specs []s
 		default:
 			r.OK(rule, construct, p.Pos(fn.Pos()), "path-enumeration", fmt.Sprintf("%d returning path(s), each creates the edge", creating))
 		}
+	}
+}
+
+// WildcardNameStrip (C11 "contains type T exactly when a 'T:*' restriction is reachable"): the public type named in a
+// wildcard list is the label of the wildcard node 'T:*' without its two-character suffix. Every place that cuts a
+// suffix of fixed length off a node label (label[:len(label)-k]) cuts exactly len(":*") characters; one character
+// more or less and the lists name "T:" or "" instead of T.
+func WildcardNameStrip(p *load.Prog, r *oblig.Report, rule string, funcs []*ssa.Function) {
+	n := 0
+	for _, f := range funcs {
+		for _, b := range f.Blocks {
+			for _, in := range b.Instrs {
+				sl, ok := in.(*ssa.Slice)
+				if !ok || sl.Low != nil || sl.High == nil {
+					continue
+				}
+				if bt, ok := sl.X.Type().Underlying().(*types.Basic); !ok || bt.Info()&types.IsString == 0 {
+					continue
+				}
+				bo, ok := sl.High.(*ssa.BinOp)
+				if !ok || bo.Op != token.SUB {
+					continue
+				}
+				lc, ok := bo.X.(*ssa.Call)
+				if !ok {
+					continue
+				}
+				if bi, isB := lc.Common().Value.(*ssa.Builtin); !isB || bi.Name() != "len" || lc.Common().Args[0] != sl.X {
+					continue
+				}
+				k, ok := bo.Y.(*ssa.Const)
+				if !ok || k.Value == nil {
+					continue
+				}
+				if !strings.Contains(strings.ToLower(AccessPath(sl.X)), "label") {
+					continue
+				}
+				n++
+				construct := "wildcard-name:" + load.FuncName(f)
+				if k.Int64() == int64(len(":*")) {
+					r.OK(rule, construct, p.Pos(sl.Pos()), "suffix-length", "label[:len(label)-2]")
+				} else {
+					r.Bad(rule, construct, p.Pos(sl.Pos()), fmt.Sprintf("the name of a public type is taken as %s[:len-%d]; the suffix of a wildcard label ':*' has 2 characters: the wildcard lists would name a string that is not the type", stripUnique(AccessPath(sl.X)), k.Int64()))
+				}
+			}
+		}
+	}
+	if n == 0 {
+		r.Unknown(rule, "wildcard-name", "-", "no place that strips the wildcard suffix off a label was found: anchors no longer resolve")
+	}
+}
+
+// WildcardListsOnlyGrow (C11 "exactly the reachable public types … no duplicates"): what a node or an edge has
+// collected is never thrown away, and what is found missing is added. In every function that stores into a wildcards
+// field of an existing node or edge, on the enumerated paths (helpers followed):
+//
+//	(1) the stored list extends the list it replaces (an append to that same list, possibly inside a merge helper),
+//	    unless the path established that the list was empty (len == 0) — a non-empty list is never overwritten;
+//	(2) a path that established the absence of an element (slices.Contains(list, w) false) appends it to that list.
+func WildcardListsOnlyGrow(p *load.Prog, r *oblig.Report, rule string, funcs []*ssa.Function) {
+	judged := 0
+	for _, fn := range funcs {
+		stores := false
+		for _, b := range fn.Blocks {
+			for _, in := range b.Instrs {
+				if st, ok := in.(*ssa.Store); ok {
+					if fa, ok := st.Addr.(*ssa.FieldAddr); ok && structFieldName(fa.X.Type(), fa.Field) == "wildcards" {
+						if _, fresh := fa.X.(*ssa.Alloc); !fresh {
+							stores = true
+						}
+					}
+				}
+			}
+		}
+		if !stores {
+			continue
+		}
+		construct := "wildcards-grow:" + load.FuncName(fn)
+		ex := &pathx.Explorer{Root: fn, MaxPaths: 30000, Follow: func(c *ssa.Function) bool {
+			// merge helpers that take and return lists are entered; functions that themselves own a wildcards store are judged on their own
+			if c.Pkg != fn.Pkg || len(c.Blocks) == 0 || (c.Parent() == nil && token.IsExported(c.Name())) {
+				return false
+			}
+			for _, b := range c.Blocks {
+				for _, in := range b.Instrs {
+					if st, ok := in.(*ssa.Store); ok {
+						if fa, ok := st.Addr.(*ssa.FieldAddr); ok && structFieldName(fa.X.Type(), fa.Field) == "wildcards" {
+							return false
+						}
+					}
+				}
+			}
+			return true
+		}}
+		paths := ex.Explore()
+		if ex.Overflow || len(paths) == 0 {
+			r.Unknown(rule, construct, p.Pos(fn.Pos()), "paths could not be enumerated")
+			continue
+		}
+		judged++
+		bad := map[string]string{}
+		nStores := 0
+		for _, pt := range paths {
+			type ext struct {
+				list string
+				elem string
+			}
+			var extended []ext
+			for _, ev := range pt.Events {
+				st, ok := ev.Instr.(*ssa.Store)
+				if !ok {
+					continue
+				}
+				addr := pt.Resolve(ev.Term(st.Addr))
+				fa, ok := addr.V.(*ssa.FieldAddr)
+				if !ok || structFieldName(fa.X.Type(), fa.Field) != "wildcards" {
+					continue
+				}
+				if _, fresh := pt.Resolve(addr.Sub(fa.X)).V.(*ssa.Alloc); fresh {
+					continue // a field of an object made on this path
+				}
+				nStores++
+				list := pt.Render(addr)
+				// does the value extend the same list?
+				extends, elem := false, ""
+				var walk func(t pathx.Term, depth int)
+				walk = func(t pathx.Term, depth int) {
+					t = pt.Resolve(t)
+					if depth > 8 || t.V == nil {
+						return
+					}
+					if call, ok := t.V.(*ssa.Call); ok {
+						if b, isB := call.Common().Value.(*ssa.Builtin); isB && b.Name() == "append" && len(call.Common().Args) >= 1 {
+							if pt.Render(t.Sub(call.Common().Args[0])) == list {
+								extends = true
+								if len(call.Common().Args) == 2 {
+									if sl, ok := call.Common().Args[1].(*ssa.Slice); ok {
+										if al, ok := sl.X.(*ssa.Alloc); ok && al.Referrers() != nil {
+											for _, ref := range *al.Referrers() {
+												if ia, ok := ref.(*ssa.IndexAddr); ok && ia.Referrers() != nil {
+													for _, r2 := range *ia.Referrers() {
+														if s2, ok := r2.(*ssa.Store); ok {
+															elem = pt.Render(t.Sub(s2.Val))
+														}
+													}
+												}
+											}
+										}
+									}
+								}
+								return
+							}
+							walk(t.Sub(call.Common().Args[0]), depth+1)
+						}
+					}
+				}
+				walk(ev.Term(st.Val), 0)
+				if pt.Render(ev.Term(st.Val)) == list {
+					continue // the list itself handed back by a merge helper that had nothing to add
+				}
+				if extends {
+					extended = append(extended, ext{list, elem})
+					continue
+				}
+				// a replacement: only of an empty list
+				empty := false
+				for _, f := range pt.Facts(ev.NCond) {
+					if (f.Atom == "len("+list+") == 0" && f.Value) || (f.Atom == "len("+list+") > 0" && !f.Value) {
+						empty = true
+					}
+				}
+				if !empty {
+					bad["overwrite:"+pathx.StripUnique(list)] = fmt.Sprintf("%s is replaced by %s on a path that did not establish that it was empty (%s; conditions: %s): public types collected so far are thrown away", pathx.StripUnique(list), pathx.StripUnique(pt.Render(ev.Term(st.Val))), p.Pos(st.Pos()), factList(pt.Facts(ev.NCond)))
+				}
+			}
+			// (2) what was found missing is added
+			if pt.End == "return" {
+				for _, f := range pt.Facts(-1) {
+					if f.Value || !strings.HasPrefix(f.Atom, "slices.Contains(") || !strings.Contains(f.Atom, ".wildcards, ") {
+						continue
+					}
+					inner := strings.TrimSuffix(strings.TrimPrefix(f.Atom, "slices.Contains("), ")")
+					i := strings.Index(inner, ".wildcards, ")
+					list, elem := inner[:i+len(".wildcards")], inner[i+len(".wildcards, "):]
+					added := false
+					for _, e := range extended {
+						if e.list == list && (e.elem == elem || e.elem == "") {
+							added = true
+						}
+					}
+					if !added {
+						bad["not-added:"+pathx.StripUnique(list)] = fmt.Sprintf("%s was found missing from %s but is not appended on that path (conditions: %s): a reachable public type is left out of the list", pathx.StripUnique(elem), pathx.StripUnique(list), factList(pt.Facts(-1)))
+					}
+				}
+			}
+		}
+		switch {
+		case len(bad) > 0:
+			keys := make([]string, 0, len(bad))
+			for k := range bad {
+				keys = append(keys, k)
+			}
+			sort.Strings(keys)
+			for _, k := range keys {
+				r.Bad(rule, construct+":"+k, p.Pos(fn.Pos()), bad[k])
+			}
+		default:
+			r.OK(rule, construct, p.Pos(fn.Pos()), "path-enumeration", fmt.Sprintf("%d store(s) on the enumerated paths: each extends the list or replaces an empty one; nothing found missing is left out", nStores))
+		}
+	}
+	// (3) a loop that walks the wildcard list of a source (to merge it into another list) appends: a merge loop whose
+	// body adds nothing leaves the destination without the source's public types
+	for _, fn := range funcs {
+		for _, b := range fn.Blocks {
+			for _, in := range b.Instrs {
+				ia, ok := in.(*ssa.IndexAddr)
+				if !ok {
+					continue
+				}
+				ld, ok := ia.X.(*ssa.UnOp)
+				if !ok || ld.Op != token.MUL {
+					continue
+				}
+				fa, ok := ld.X.(*ssa.FieldAddr)
+				if !ok || structFieldName(fa.X.Type(), fa.Field) != "wildcards" {
+					continue
+				}
+				idx := ia.Index
+				if bo, ok := idx.(*ssa.BinOp); ok && bo.Op == token.ADD {
+					idx = bo.X
+				}
+				ph, ok := idx.(*ssa.Phi)
+				if !ok {
+					continue
+				}
+				hdr := ph.Block()
+				// body: blocks dominated by the header from which the header is reachable again
+				appends := false
+				for _, bb := range fn.Blocks {
+					if bb == hdr || !hdr.Dominates(bb) || !reachesBlockE5(bb, hdr) {
+						continue
+					}
+					for _, bi := range bb.Instrs {
+						if c, ok := bi.(*ssa.Call); ok {
+							if bt, isB := c.Common().Value.(*ssa.Builtin); isB && bt.Name() == "append" {
+								appends = true
+							}
+							if cal := c.Common().StaticCallee(); cal != nil && cal.Pkg == fn.Pkg && len(cal.Blocks) > 0 {
+								appends = true // handed to a helper of the package: judged there
+							}
+						}
+					}
+				}
+				construct := "wildcards-merge-loop:" + load.FuncName(fn)
+				if appends {
+					r.OK(rule, construct, p.Pos(ia.Pos()), "loop-appends", "the loop over "+stripUnique(AccessPath(ld))+" appends")
+				} else {
+					r.Bad(rule, construct, p.Pos(ia.Pos()), "the loop over "+stripUnique(AccessPath(ld))+" adds nothing to any list: the public types of the source never reach a destination that is not empty")
+				}
+			}
+		}
+	}
+	// (4) a membership test on a wildcard list is there to decide an append: one whose result nothing uses is the
+	// remains of an append that is gone
+	for _, fn := range funcs {
+		for _, b := range fn.Blocks {
+			for _, in := range b.Instrs {
+				c, ok := in.(*ssa.Call)
+				if !ok {
+					continue
+				}
+				cal := c.Common().StaticCallee()
+				if cal == nil || len(c.Common().Args) != 2 {
+					continue
+				}
+				o := cal
+				if cal.Origin() != nil {
+					o = cal.Origin()
+				}
+				if o.Pkg == nil || o.Pkg.Pkg.Path() != "slices" || o.Name() != "Contains" || !strings.HasSuffix(AccessPath(c.Common().Args[0]), ".wildcards") {
+					continue
+				}
+				used := false
+				if refs := c.Referrers(); refs != nil {
+					for _, ref := range *refs {
+						if _, dbg := ref.(*ssa.DebugRef); !dbg {
+							used = true
+						}
+					}
+				}
+				if !used {
+					r.Bad(rule, "wildcards-test-unused:"+load.FuncName(fn), p.Pos(c.Pos()), "the result of slices.Contains("+stripUnique(AccessPath(c.Common().Args[0]))+", …) is not used: the element it asks about is never appended")
+				}
+			}
+		}
+	}
+	if judged == 0 {
+		r.Unknown(rule, "wildcards-grow", "-", "no function that stores into a wildcards field of an existing node or edge was found: anchors no longer resolve")
+	}
+}
+
+func reachesBlockE5(from, to *ssa.BasicBlock) bool {
+	seen := map[*ssa.BasicBlock]bool{}
+	stack := []*ssa.BasicBlock{from}
+	for len(stack) > 0 {
+		b := stack[len(stack)-1]
+		stack = stack[:len(stack)-1]
+		for _, s := range b.Succs {
+			if s == to {
+				return true
+			}
+			if !seen[s] {
+				seen[s] = true
+				stack = append(stack, s)
+			}
+		}
+	}
+	return false
+}
+
+// NoTerminalTypeRejected (C05 "a relation that reaches no terminal type … is an error"): wherever the weight
+// calculation finds that a node has no outgoing edge (len(edges) == 0), the paths on which the node is not a terminal
+// type (a type or a wildcard) end in a non-nil error. Judged in the functions of the reachable graph code that test
+// the emptiness of a node's edge list; decided on their enumerated paths.
+func NoTerminalTypeRejected(p *load.Prog, r *oblig.Report, rule string, funcs []*ssa.Function) {
+	tType, ok1 := constOf(p, "graph", "SpecificType")
+	tWild, ok2 := constOf(p, "graph", "SpecificTypeWildcard")
+	if !ok1 || !ok2 {
+		r.Unknown(rule, "no-terminal-type:anchor", "-", "node kind constants not found")
+		return
+	}
+	terminal := map[string]bool{tType.ExactString(): true, tWild.ExactString(): true}
+	emptyRe := regexp.MustCompile(`^len\(.*edges\[.*\]\) == 0$`)
+	kindRe := regexp.MustCompile(`\.nodeType == (\d+)$`)
+	n := 0
+	for _, fn := range funcs {
+		has := false
+		for _, b := range fn.Blocks {
+			for _, in := range b.Instrs {
+				if bo, ok := in.(*ssa.BinOp); ok && (bo.Op == token.EQL || bo.Op == token.GTR || bo.Op == token.NEQ) {
+					if c, ok := bo.X.(*ssa.Call); ok {
+						if bi, isB := c.Common().Value.(*ssa.Builtin); isB && bi.Name() == "len" && strings.Contains(AccessPath(c.Common().Args[0]), ".edges[") {
+							has = true
+							// "no outgoing edge" is a comparison with 0
+							if k, isC := bo.Y.(*ssa.Const); isC && k.Value != nil && bo.Op == token.EQL && k.Int64() != 0 && returnsErr(fn) {
+								n++
+								r.Bad(rule, "no-terminal-type:"+load.FuncName(fn)+":bound", p.Pos(bo.Pos()), fmt.Sprintf("the test for a node without outgoing edges compares the number of edges with %d, not with 0: a relation that reaches nothing is not recognised", k.Int64()))
+							}
+						}
+					}
+				}
+			}
+		}
+		if !has || !returnsErr(fn) {
+			continue
+		}
+		ex := &pathx.Explorer{Root: fn, MaxPaths: 20000, Follow: func(c *ssa.Function) bool { return false }}
+		paths := ex.Explore()
+		if ex.Overflow || len(paths) == 0 {
+			continue
+		}
+		construct := "no-terminal-type:" + load.FuncName(fn)
+		judgedPaths, bad := 0, ""
+		for _, pt := range paths {
+			if pt.End != "return" {
+				continue
+			}
+			empty, isTerminal := false, false
+			nonTerminalFacts := 0
+			for _, f := range pt.Facts(-1) {
+				if emptyRe.MatchString(f.Atom) && f.Value {
+					empty = true
+				}
+				if m := kindRe.FindStringSubmatch(f.Atom); m != nil {
+					if terminal[m[1]] && f.Value {
+						isTerminal = true
+					}
+					if terminal[m[1]] && !f.Value {
+						nonTerminalFacts++
+					}
+				}
+			}
+			if !empty || isTerminal {
+				continue
+			}
+			judgedPaths++
+			// the error result
+			failed := false
+			for i := range pt.Ret.Results {
+				if types.Identical(pt.Ret.Results[i].Type(), types.Universe.Lookup("error").Type()) {
+					if c, ok := pt.Resolve(pt.RetTerm(i)).V.(*ssa.Const); !ok || !c.IsNil() {
+						failed = true
+					}
+				}
+			}
+			if !failed {
+				bad = fmt.Sprintf("a path on which the node has no outgoing edge and is not known to be a terminal type returns without an error (conditions: %s): a relation that reaches no terminal type is accepted", factList(pt.Facts(-1)))
+			}
+		}
+		if judgedPaths == 0 {
+			continue
+		}
+		n++
+		if bad != "" {
+			r.Bad(rule, construct, p.Pos(fn.Pos()), bad)
+		} else {
+			r.OK(rule, construct, p.Pos(fn.Pos()), "path-enumeration", fmt.Sprintf("%d path(s) with an empty edge list and no terminal kind, each ends in an error", judgedPaths))
+		}
+	}
+	if n == 0 {
+		r.Unknown(rule, "no-terminal-type", "-", "no function that tests the emptiness of a node's edge list was found: anchors no longer resolve")
+	}
+}
+
+func returnsErr(fn *ssa.Function) bool {
+	res := fn.Signature.Results()
+	for i := 0; i < res.Len(); i++ {
+		if types.Identical(res.At(i).Type(), types.Universe.Lookup("error").Type()) {
+			return true
+		}
+	}
+	return false
+}
+
+// PlaceholderRegistered (C05 / C04 "no unresolved cycle placeholder is ever visible"): an edge that is given the
+// placeholder weight of an unresolved cycle root ("R#" + root) is, on the same path, filed in the dependants table
+// under that root — otherwise nothing ever replaces the placeholder when the root is resolved.
+func PlaceholderRegistered(p *load.Prog, r *oblig.Report, rule string, funcs []*ssa.Function) {
+	isDepTable := func(t types.Type) bool {
+		m, ok := t.Underlying().(*types.Map)
+		if !ok {
+			return false
+		}
+		sl, ok := m.Elem().Underlying().(*types.Slice)
+		return ok && strings.HasSuffix(sl.Elem().String(), "WeightedAuthorizationModelEdge")
+	}
+	n := 0
+	for _, fn := range funcs {
+		has := false
+		for _, b := range fn.Blocks {
+			for _, in := range b.Instrs {
+				if mu, ok := in.(*ssa.MapUpdate); ok {
+					if bo, ok := mu.Key.(*ssa.BinOp); ok && bo.Op == token.ADD {
+						if c, ok := bo.X.(*ssa.Const); ok && c.Value != nil && c.Value.Kind() == constant.String && constant.StringVal(c.Value) == "R#" {
+							has = true
+						}
+					}
+				}
+			}
+		}
+		if !has {
+			continue
+		}
+		construct := "placeholder-registered:" + load.FuncName(fn)
+		// small helpers (a "depends on" recorder) are entered; the recursive weight calculation (anything that can fail) is not
+		ex := &pathx.Explorer{Root: fn, MaxPaths: 30000, Follow: func(c *ssa.Function) bool {
+			return c.Pkg == fn.Pkg && len(c.Blocks) > 0 && len(c.Blocks) <= 4 && !returnsErr(c) && (c.Parent() != nil || !token.IsExported(c.Name()))
+		}}
+		paths := ex.Explore()
+		if ex.Overflow || len(paths) == 0 {
+			r.Unknown(rule, construct, p.Pos(fn.Pos()), "paths could not be enumerated")
+			continue
+		}
+		n++
+		placed, bad := 0, ""
+		for _, pt := range paths {
+			for _, ev := range pt.Events {
+				mu, ok := ev.Instr.(*ssa.MapUpdate)
+				if !ok {
+					continue
+				}
+				bo, ok := mu.Key.(*ssa.BinOp)
+				if !ok || bo.Op != token.ADD {
+					continue
+				}
+				c, ok := bo.X.(*ssa.Const)
+				if !ok || c.Value == nil || c.Value.Kind() != constant.String || constant.StringVal(c.Value) != "R#" {
+					continue
+				}
+				placed++
+				root := pt.Render(ev.Term(bo.Y))
+				registered := false
+				for _, e2 := range pt.Events {
+					m2, ok := e2.Instr.(*ssa.MapUpdate)
+					if !ok || !isDepTable(m2.Map.Type()) {
+						continue
+					}
+					if pt.Render(e2.Term(m2.Key)) == root {
+						registered = true
+					}
+				}
+				if !registered {
+					bad = fmt.Sprintf("an edge is given the placeholder weight \"R#\"+%s on a path that does not file it among the dependants of %s (%s): when that root is resolved nothing replaces the placeholder", pathx.StripUnique(root), pathx.StripUnique(root), p.Pos(mu.Pos()))
+				}
+			}
+		}
+		switch {
+		case bad != "":
+			r.Bad(rule, construct, p.Pos(fn.Pos()), bad)
+		case placed == 0:
+			r.Unknown(rule, construct, p.Pos(fn.Pos()), "no placeholder store met on the enumerated paths")
+		default:
+			r.OK(rule, construct, p.Pos(fn.Pos()), "path-enumeration", fmt.Sprintf("%d placeholder store(s), each with the edge filed under the same root on its path", placed))
+		}
+	}
+	if n == 0 {
+		r.Unknown(rule, "placeholder-registered", "-", "no store of a \"R#\" placeholder weight found: anchors no longer resolve")
+	}
+}
+
+// CycleSegmentStart (C05 "a cycle of rewrites needs no tuple … is an error; a cycle through a tuple edge is not"): when
+// the search comes back to a node that is still open, the cycle is the part of the ancestor path that starts with
+// the first edge LEAVING that node; whether a tuple edge lies on the cycle is asked of that part only. The function
+// that classifies the back edge locates the start by comparing the revisited node with the SOURCE of an ancestor
+// edge; a comparison with the TARGET of an ancestor edge takes in the edge through which the search entered the
+// cycle, which is not part of it. Judged in isTupleCycle, its closures and the helpers of its package it calls.
+func CycleSegmentStart(p *load.Prog, r *oblig.Report, rule string) {
+	fn := p.Method("graph", "WeightedAuthorizationModelGraph", "isTupleCycle")
+	construct := "cycle-segment-start:isTupleCycle"
+	if fn == nil {
+		r.Unknown(rule, construct, "-", "isTupleCycle not found")
+		return
+	}
+	var node *ssa.Parameter
+	for _, q := range fn.Params {
+		if b, ok := q.Type().Underlying().(*types.Basic); ok && b.Kind() == types.String {
+			node = q
+		}
+	}
+	if node == nil {
+		r.Unknown(rule, construct, p.Pos(fn.Pos()), "isTupleCycle has no node parameter")
+		return
+	}
+	// the functions judged, each with what the node parameter is called there
+	type ctx struct {
+		f    *ssa.Function
+		node map[ssa.Value]bool
+	}
+	work := []ctx{{fn, map[ssa.Value]bool{node: true}}}
+	seen := map[*ssa.Function]bool{fn: true}
+	fromCmp, toCmp := 0, ""
+	for len(work) > 0 {
+		c := work[0]
+		work = work[1:]
+		isNode := func(v ssa.Value) bool {
+			for i := 0; i < 4; i++ {
+				if c.node[v] {
+					return true
+				}
+				switch x := v.(type) {
+				case *ssa.UnOp:
+					v = x.X // a captured variable read through its cell
+					continue
+				case *ssa.ChangeType:
+					v = x.X
+					continue
+				}
+				break
+			}
+			return false
+		}
+		endpoint := func(v ssa.Value) string {
+			pth := AccessPath(v)
+			switch {
+			case strings.HasSuffix(pth, ".from.uniqueLabel"):
+				return "from"
+			case strings.HasSuffix(pth, ".to.uniqueLabel"):
+				return "to"
+			}
+			return ""
+		}
+		for _, b := range c.f.Blocks {
+			for _, in := range b.Instrs {
+				switch x := in.(type) {
+				case *ssa.BinOp:
+					if x.Op != token.EQL && x.Op != token.NEQ {
+						continue
+					}
+					var other ssa.Value
+					switch {
+					case isNode(x.X):
+						other = x.Y
+					case isNode(x.Y):
+						other = x.X
+					default:
+						continue
+					}
+					switch endpoint(other) {
+					case "from":
+						fromCmp++
+					case "to":
+						toCmp = p.Pos(x.Pos())
+					}
+				case *ssa.MakeClosure:
+					if cf, ok := x.Fn.(*ssa.Function); ok && !seen[cf] {
+						seen[cf] = true
+						nm := map[ssa.Value]bool{}
+						for i, fv := range cf.FreeVars {
+							if i < len(x.Bindings) && isNode(x.Bindings[i]) {
+								nm[fv] = true
+							}
+							// a cell that holds the parameter
+							if i < len(x.Bindings) {
+								if al, ok := x.Bindings[i].(*ssa.Alloc); ok && al.Referrers() != nil {
+									for _, ref := range *al.Referrers() {
+										if st, ok := ref.(*ssa.Store); ok && isNode(st.Val) {
+											nm[fv] = true
+										}
+									}
+								}
+							}
+						}
+						work = append(work, ctx{cf, nm})
+					}
+				case *ssa.Call:
+					if cal := x.Common().StaticCallee(); cal != nil && cal.Pkg == fn.Pkg && len(cal.Blocks) > 0 && !seen[cal] && !token.IsExported(cal.Name()) {
+						nm := map[ssa.Value]bool{}
+						for i, a := range x.Common().Args {
+							if isNode(a) && i < len(cal.Params) {
+								nm[cal.Params[i]] = true
+							}
+						}
+						if len(nm) > 0 {
+							seen[cal] = true
+							work = append(work, ctx{cal, nm})
+						}
+					}
+				}
+			}
+		}
+	}
+	// on the enumerated paths: the answer "tuple cycle" (the constant true) is given only after the start of the cycle
+	// segment was recognised on that path — a scan that counts tuple edges from the beginning of the ancestor path
+	// takes in edges that lie before the cycle
+	earlyTrue := ""
+	{
+		ex := &pathx.Explorer{Root: fn, MaxPaths: 20000}
+		for _, pt := range ex.Explore() {
+			if pt.End != "return" || len(pt.Ret.Results) != 1 {
+				continue
+			}
+			c, ok := pt.Resolve(pt.RetTerm(0)).V.(*ssa.Const)
+			if !ok || c.Value == nil || c.Value.Kind() != constant.Bool || !constant.BoolVal(c.Value) {
+				continue
+			}
+			started := false
+			for _, f := range pt.Facts(-1) {
+				if f.Value && strings.Contains(f.Atom, ".from.uniqueLabel == ") && strings.HasSuffix(f.Atom, "== "+node.Name()) {
+					started = true
+				}
+				if f.Value && strings.HasPrefix(f.Atom, node.Name()+" == ") && strings.HasSuffix(f.Atom, ".from.uniqueLabel") {
+					started = true
+				}
+			}
+			if !started && !ex.Overflow {
+				earlyTrue = fmt.Sprintf("conditions: %s", factList(pt.Facts(-1)))
+			}
+		}
+	}
+	switch {
+	case earlyTrue != "" && toCmp == "":
+		r.Bad(rule, construct, p.Pos(fn.Pos()), "the back edge is classified as a tuple cycle on a path that did not recognise where the cycle starts (no ancestor edge was found to leave the revisited node; "+earlyTrue+"): tuple edges that lie before the cycle are counted, so a rewrite-only cycle reached over a tuple edge passes")
+	case toCmp != "":
+		r.Bad(rule, construct, toCmp, "the revisited node is compared with the TARGET of an ancestor edge: the edge through which the search entered the cycle is counted as part of the cycle, so a rewrite-only cycle reached over a tuple edge passes as a tuple cycle")
+	case fromCmp == 0:
+		r.Unknown(rule, construct, p.Pos(fn.Pos()), "no comparison of the revisited node with the source of an ancestor edge found: the start of the cycle segment is located in a way this rule does not read")
+	default:
+		r.OK(rule, construct, p.Pos(fn.Pos()), "endpoint-comparisons", fmt.Sprintf("%d comparison(s) with the source of an ancestor edge, none with a target", fromCmp))
+	}
+}
+
+// NoDiscardedMaps (weight calculation): a map that a function makes and fills is stored, returned or handed on; a map
+// whose only uses are its own updates and lookups is a result that is computed and thrown away (the assignment that
+// published it is gone), so the object it was computed for keeps its stale — unresolved — content.
+func NoDiscardedMaps(p *load.Prog, r *oblig.Report, rule string, funcs []*ssa.Function) {
+	made, bad := 0, 0
+	for _, fn := range funcs {
+		if fn.Pkg == nil || !load.IsRepoPkg(fn.Pkg.Pkg) {
+			continue
+		}
+		for _, b := range fn.Blocks {
+			for _, in := range b.Instrs {
+				mk, ok := in.(*ssa.MakeMap)
+				if !ok || mk.Referrers() == nil {
+					continue
+				}
+				made++
+				written, published := false, false
+				for _, ref := range *mk.Referrers() {
+					switch x := ref.(type) {
+					case *ssa.MapUpdate:
+						if x.Map == ssa.Value(mk) {
+							written = true
+						} else {
+							published = true
+						}
+					case *ssa.Lookup, *ssa.DebugRef, *ssa.Range:
+					case *ssa.Call:
+						if bi, isB := x.Common().Value.(*ssa.Builtin); isB && (bi.Name() == "len" || bi.Name() == "delete") {
+							continue
+						}
+						published = true
+					default:
+						published = true
+					}
+				}
+				if written && !published {
+					bad++
+					r.Bad(rule, "discarded-map:"+load.FuncName(fn), p.Pos(mk.Pos()), "a map is made and filled in "+load.FuncName(fn)+" but never stored, returned or handed on: what was computed into it is thrown away")
+				}
+			}
+		}
+	}
+	if bad == 0 {
+		r.OK(rule, "discarded-map", "-", "def-use", fmt.Sprintf("%d maps made in the reachable repository functions, each one that is filled is also stored, returned or handed on", made))
 	}
 }
